@@ -1,5 +1,5 @@
 (* Correspondence for C09 (uamiv stream): reference codec <-> library, both directions. *)
-From PNC Require Export Base.Util Base.Words Model.Uamiv Model.YearEnd Model.Lbdy Model.One3d Model.TempHp.
+From PNC Require Export Base.Util Base.Words Model.Uamiv Model.YearEnd Model.Lbdy Model.One3d Model.TempHp Model.Wind.
 Local Open Scope Z_scope.
 
 Record ucase := Case {
@@ -295,7 +295,64 @@ Definition hcheckS (c : hcase) : bool :=
 Definition hregion (c : hcase) : nat :=
   if hwhole c && (Z.of_nat (length (h_steps (hc_c c))) <? 2) then 11%nat else 0%nat.
 
+(* Seventh kind of case: wind files, Model/Wind.v. The library outcome has three values: 0 = opened and read,
+   1 = raised, 2 = did not return within the limit (the reader model says WHang exactly there). *)
+Record wcase := WCase {
+  wc_c : wind; wc_hhmm : list Z; wc_tbl : list (Z * Z); wc_ref : list word; wc_cut : Z;
+  wc_status : Z; wc_view : wview; wc_tflag : list (Z * Z);
+  wc_py_ok : bool; wc_w_ok : bool; wc_written : list word
+}.
+Definition wview_eqb (a b : wview) : bool :=
+  (wv_nx a =? wv_nx b) && (wv_ny a =? wv_ny b) && (wv_nz a =? wv_nz b) && (wv_ntimes a =? wv_ntimes b)
+  && zlll_eqb (wv_u a) (wv_u b) && zlll_eqb (wv_v a) (wv_v b).
+Definition wstep_eqb (a b : wstep) : bool :=
+  (ws_time a =? ws_time b) && (ws_date a =? ws_date b)
+  && list_eqb (fun x y => zlist_eqb (fst x) (fst y) && zlist_eqb (snd x) (snd y)) (ws_uv a) (ws_uv b).
+Definition wind_eqb (a b : wind) : bool :=
+  (w_nx a =? w_nx b) && (w_ny a =? w_ny b) && (w_nz a =? w_nz b) && (w_dummy a =? w_dummy b)
+  && match w_stag a, w_stag b with Some x, Some y => x =? y | None, None => true | _, _ => false end
+  && list_eqb wstep_eqb (w_steps a) (w_steps b).
+Definition wwhole (c : wcase) : bool := wc_cut c =? 4 * Z.of_nat (length (wc_ref c)).
+(* F: reference encoder == Coq encoder; the reader model predicts the library's outcome (read / raise / no return), the view
+   and TFLAG; ncf2wind (always a 12-byte time record) writes the records of the content with a 0.0 dummy word *)
+Definition wcheckF (c : wcase) : bool :=
+  zlist_eqb (w_enc (wc_c c)) (wc_ref c)
+  && match w_mm_read (w_ny (wc_c c)) (w_nx (wc_c c)) (firstn (Z.to_nat ((wc_cut c + 3) / 4)) (wc_ref c)) (wc_cut c) with
+     | WOk v => (wc_status c =? 0) && wview_eqb v (wc_view c)
+                && list_eqb pair_eqb (flags_of (wc_tbl c) (wv_stamps v)) (wc_tflag c)
+                && (negb (wwhole c)
+                    || match w_stag (wc_c c) with
+                       | Some _ => wc_w_ok c && zlist_eqb (wc_written c) (w_enc (wc_c c))
+                       | None => true            (* re-writing an 8-byte-time-record file is not modelled *)
+                       end)
+     | WErr => wc_status c =? 1
+     | WHang => wc_status c =? 2
+     end.
+Definition w_spec_flags (c : wcase) : list (Z * Z) := o_spec_tflag (map ws_date (w_steps (wc_c c))) (wc_hhmm c).
+Definition wcheckS (c : wcase) : bool :=
+  if wwhole c then
+    wc_py_ok c && (wc_status c =? 0) && wview_eqb (wc_view c) (w_view_of (wc_c c))
+    && list_eqb pair_eqb (wc_tflag c) (w_spec_flags c) && wc_w_ok c
+    && match w_dec (w_nx (wc_c c)) (w_ny (wc_c c)) (w_nz (wc_c c)) (w_stag (wc_c c)) (w_dummy (wc_c c)) (wc_written c) with
+       | Some c' => wind_eqb c' (wc_c c) | None => false end
+  else
+    (wc_status c =? 1)
+    || ((wc_status c =? 0)
+        && (let k := Z.to_nat (wv_ntimes (wc_view c)) in
+            wc_py_ok c && (0 <? wv_ntimes (wc_view c)) && (Z.of_nat k <=? Z.of_nat (length (w_steps (wc_c c))))
+            && wview_eqb (wc_view c) (w_view_of (w_truncate_steps k (wc_c c)))
+            && list_eqb pair_eqb (wc_tflag c) (firstn k (w_spec_flags c)))).
+(* region 12: whole files on 1x1 grids (U/V records as long as the dummy record); region 15: a cut on which the
+   layer-counting loop of the reader model never terminates (inside the first step: Model/Wind.v w_hang_cut) *)
+Definition wregion (c : wcase) : nat :=
+  if wwhole c then (if w_nx (wc_c c) * w_ny (wc_c c) =? 1 then 12%nat else 0%nat)
+  else match w_mm_read (w_ny (wc_c c)) (w_nx (wc_c c)) (firstn (Z.to_nat ((wc_cut c + 3) / 4)) (wc_ref c)) (wc_cut c) with
+       | WHang => 15%nat          (* = w_hang_cut when the U/V records are not 4 bytes long (Props/C14.v) *)
+       | _ => 0%nat
+       end.
+
 Inductive case_t :=
+| WD (c : wcase)
 | TD (c : tcase)
 | HD (c : hcase)
 | OD (c : ocase)
@@ -314,4 +371,5 @@ Definition check (c : case_t) : verdict :=
   | OD c => (ocheckF c, ocheckS c, oregion c)
   | TD c => (tcheckF c, tcheckS c, tregion c)
   | HD c => (hcheckF c, hcheckS c, hregion c)
+  | WD c => (wcheckF c, wcheckS c, wregion c)
   end.
